@@ -202,6 +202,28 @@ def r20_3(ck: Check) -> None:
                 ck.violated("R20.3", "%s.stream_deserialize raises on unknown tags" % short(q), "unknown tag tolerated", "")
 
 
+def r20_7(ck: Check) -> None:
+    """dialling runs from the manager's step, outside the per-connection catch-all: an unreachable / unroutable address (which a peer can
+    announce) must not raise there"""
+    q = LPQ + "start_outgoing_connection"
+    s = ck.summ(q, 0)
+    dial = [e for e in s.events if e.kind == "call" and e.parts and e.parts[0][0] == "a" and e.parts[0][2] in ("connect", "connect_ex")]
+    construct = "start_outgoing_connection: the connect cannot raise into the event loop (connect_ex, or connect inside except OSError)"
+    bad = [e for e in dial if e.parts[0][2] == "connect" and swallowed_by(ck.repo, e, "OSError") is None]
+    if len(dial) == 1 and not bad:
+        ck.ok("R20.7", construct, dial[0].parts[0][2], dial[0].loc)
+    else:
+        ck.violated("R20.7", construct, "%s — a peer-announced unroutable address makes the dial raise OSError outside any per-connection handler: "
+                    "the network thread ends" % ([e.describe()[:80] for e in dial] or "no connect call"), s.fi.loc)
+    st = ck.summ("skepticoin.networking.manager.NetworkManager.step", 0)
+    calls = [e for e in st.events if e.kind == "call" and q in e.targets]
+    nb = [e for e in s.events if e.kind == "call" and e.parts and e.parts[0][0] == "a" and e.parts[0][2] == "setblocking" and e.term[2] == (C(False),)]
+    if calls and nb and dial and nb[0].seq < dial[0].seq:
+        ck.ok("R20.7", "the dialled socket is non-blocking before the connect (the loop never waits on one peer)", "", nb[0].loc)
+    else:
+        ck.violated("R20.7", "the dialled socket is non-blocking before the connect (the loop never waits on one peer)", "setblocking(False) missing or late", s.fi.loc)
+
+
 def r20_4(ck: Check) -> None:
     from .c09 import r09_flow
     from .c10 import r10_4
@@ -297,6 +319,11 @@ def check(ck: Check) -> None:
     ck.run("R20.3", "protocol order; unknown types raise", lambda: r20_3(ck))
     ck.run("R20.4", "validate before mutate", lambda: r20_4(ck))
     ck.run("R20.5", "bounded reads", lambda: r20_5(ck))
+    ck.run("R20.7", "dialling an announced address cannot end the loop", lambda: r20_7(ck))
+    from .c09 import r09_5
+    ck.run("R09.5", "buffering a block before validation writes nothing", lambda: r09_5(ck))
+    from .c13 import r13_6
+    ck.run("R13.6", "the roll-back target exists from start-up on (only bulk download serves an unvalidated state)", lambda: r13_6(ck))
     from .c19 import r19_6
     ck.run("R20.6", "peer-supplied addresses are sanitised before they reach code outside the catch-all", lambda: r19_6(ck, "R20.6"))
     ck.note("not armed (timing is a runtime quantity): the VLQ reader accumulates an unbounded int; a 32 MiB run of continuation bytes makes decoding quadratic")
